@@ -63,6 +63,11 @@ theorem plainI128_ok (prof : Profile) {x : Int} (h : fitsI128 x = true) : plainI
 
 theorem pow10_pos (n : Nat) : (0 : Int) < (10 : Int) ^ n := Int.pow_pos (by decide)
 
+theorem pow10_mono {j k : Nat} (h : j ≤ k) : (10 : Int) ^ j ≤ (10 : Int) ^ k := by
+  rcases Nat.lt_or_eq_of_le h with h | h
+  · exact Int.le_of_lt (Int.pow_lt_pow_of_lt (by decide) h)
+  · subst h; exact Int.le_refl _
+
 /-- `checked_mul_pow_ten` -/
 theorem checkedMulPowTen_eq (v : Int) (n : Nat) (h : n ≤ 38) :
     checkedMulPowTen v n = checkedI128 (v * (10 : Int) ^ n) := by
